@@ -1177,6 +1177,47 @@ theorem simE_step {fns P n} (hE : SimE fns P n) (hA : SimArgs fns P n) (hF : Sim
       rcases h with h | ⟨t1, ⟨env1, fs⟩, t2, hargs, h2', rfl⟩
       · simpa using ExecC.cons h0 (hL'.2 t w h)
       · simp [pure_eq, R.ok] at h2'
+  | concat l r =>
+    simp [lowerE, Option.bind_eq_some_iff] at hl
+    obtain ⟨cl, vl, c1, h1, cr, vr, c2, h2, rfl, rfl, rfl⟩ := hl
+    have ⟨m1, b1⟩ := lowerE_mono l c cl vl c1 h1
+    have ⟨a1, k1, hk1, hk1'⟩ := atv_spec vl c1 b1
+    have ⟨m2, b2⟩ := lowerE_mono r _ cr vr c2 h2
+    have ⟨a2, k2, hk2, hk2'⟩ := atv_spec vr c2 b2
+    constructor
+    · intro t env' w h
+      simp only [evalExpr, bind_eq, bind_ok_iff] at h
+      obtain ⟨t1, ⟨env1, a⟩, t2, hel, ⟨t3, ⟨env2, b⟩, t4, her, h4, rfl⟩, rfl⟩ := h
+      obtain ⟨σ1, hx1, hv1, ha1, hf1⟩ := hE.mat h1 ha hel
+      obtain ⟨σ2, hx2, hv2, ha2, hf2⟩ := hE.mat h2 ha1 her
+      cases a with
+      | str sa =>
+        cases b with
+        | str sb =>
+          simp [pure_eq, R.ok] at h4
+          obtain ⟨rfl, rfl, rfl⟩ := h4
+          have hl' : σ2 (atvVar vl c1) = .str sa := by
+            rw [hk1, hf2 k1 hk1', ← hk1, hv1]
+          have s3 : ExecS P σ2 (.assign (.t (atvNext vr c2)) (.append (atvVar vl c1) (atvVar vr c2))) []
+              (.normal (σ2.set (.t (atvNext vr c2)) (.str (sa ++ sb)))) :=
+            .assign (.pure (by simp [evalValue, hl', hv2]))
+          refine ⟨σ2.set (.t (atvNext vr c2)) (.str (sa ++ sb)), t1 ++ t3, [], ?_, .pure (by simp [evalValue]), by simp,
+            ha2.set_tmp _ _, (hf1.trans hf2 (by omega)).trans (Frame.set_tmp _ _ (by omega)) (Nat.le_refl _)⟩
+          have := ExecC.append (ExecC.append hx1 hx2) (ExecC.single s3)
+          simpa [List.append_assoc] using this
+        | _ => simp [R.stuck] at h4
+      | _ => simp [R.stuck] at h4
+    · intro t w h
+      simp only [evalExpr, bind_eq, bind_ret_iff] at h
+      rcases h with h | ⟨t1, ⟨env1, a⟩, t2, hel, h2', rfl⟩
+      · have := hE.ret h1 ha h
+        simpa [List.append_assoc] using ExecC.append_ret _ this
+      · obtain ⟨σ1, hx1, hv1, ha1, hf1⟩ := hE.mat h1 ha hel
+        rcases h2' with h | ⟨t3, ⟨env2, b⟩, t4, her, h4, rfl⟩
+        · have := hE.ret h2 ha1 h
+          have := ExecC.append hx1 (ExecC.append_ret (atvCode vr c2 ++ [.assign (.t (atvNext vr c2)) (.append (atvVar vl c1) (atvVar vr c2))]) this)
+          simpa [List.append_assoc] using this
+        · cases a <;> cases b <;> simp [R.stuck, pure_eq, R.ok] at h4
   | fstr ps =>
     simp [lowerE, Option.bind_eq_some_iff] at hl
     obtain ⟨cp, c1, h1, rfl, rfl, rfl⟩ := hl
